@@ -94,7 +94,7 @@ pub fn check(tier: Tier) -> i32 {
         "work bound constants are fixed at about 3x the maxima measured on the pinned tree".into(),
         "nesting-depth generators beyond 4000 characters are only driven through the iterator; C11 owns deep nesting through push/load".into(),
     ];
-    let plan = plan(tier, 6, 8, 3, 4);
+    let plan = plan(tier, 6, 7, 3, 4);
     rep.mandatory_scopes = plan.spaces.len();
     let budget = Budget::new(wall_cap(tier));
     let full = tier == Tier::Thorough;
